@@ -51,6 +51,10 @@ def answer (line : String) : String :=
     | some m, some cur, some tpos, some paren, some oct, some hex, some pos, some buf =>
       showCall (genCall { mode := m, cur := cur, tpos := tpos, paren := paren, oct := oct, hex := hex } buf pos) pos
     | _, _, _, _, _, _, _, _ => "bad-op"
+  | "spec.join" :: hw :: hs =>
+    match bytesOfHex hw, hs.mapM bytesOfHex with
+    | some ws, some parts => " ".intercalate ((tokValues (specLex (joinWith ws parts))).map Token.show)
+    | _, _ => "bad-op"
   | ["table", n] => (tableByName n).getD "bad-op"
   | _ => "bad-op"
 
